@@ -211,3 +211,61 @@ SERIES_KEYS = [
 
 # tan(pi/4 - 0.0005) rounded up: |u| <= this  <=  |pitch| <= pi/2 - 1e-3 (u = tan(pitch/2))
 PI_TAN_BAND = Fraction(999000499666874868, 10 ** 18)
+
+
+# ---- dual numbers (value, derivative) generic over the number type: derivative of the series
+#      oracles by the chain rule (trusted calculus: sin' = cos, cos' = -sin, tan' = 1 + tan^2,
+#      atan' = 1/(1+x^2)) --------------------------------------------------------------------
+
+class Dual:
+    __slots__ = ("v", "d")
+
+    def __init__(self, v, d=0):
+        self.v, self.d = v, d
+
+    @staticmethod
+    def lift(x):
+        return x if isinstance(x, Dual) else Dual(x, 0)
+
+    def __add__(self, o):
+        o = Dual.lift(o)
+        return Dual(self.v + o.v, self.d + o.d)
+
+    __radd__ = __add__
+
+    def __neg__(self):
+        return Dual(-self.v, -self.d)
+
+    def __sub__(self, o):
+        o = Dual.lift(o)
+        return Dual(self.v - o.v, self.d - o.d)
+
+    def __rsub__(self, o):
+        return Dual.lift(o) - self
+
+    def __mul__(self, o):
+        o = Dual.lift(o)
+        return Dual(self.v * o.v, self.d * o.v + self.v * o.d)
+
+    __rmul__ = __mul__
+
+    def __truediv__(self, o):
+        o = Dual.lift(o)
+        return Dual(self.v / o.v, (self.d * o.v - self.v * o.d) / (o.v * o.v))
+
+    def __rtruediv__(self, o):
+        return Dual.lift(o) / self
+
+
+def series_oracle_with_derivative(key, x, s, c, tan4=None, atan_x=None, squared=False):
+    """(f(x), df/darg) where arg = x (plain series) or arg = x^2 (squared series)"""
+    X = Dual(x, 1)
+    S = Dual(s, c) if s is not None else None
+    C = Dual(c, -s) if c is not None else None
+    T4 = Dual(tan4, (1 + tan4 * tan4) / 4) if tan4 is not None else None
+    AT = Dual(atan_x, 1 / (1 + x * x)) if atan_x is not None else None
+    r = series_oracle(key, X, S, C, tan4=T4, atan_x=AT)
+    r = Dual.lift(r)
+    if squared:
+        return r.v, r.d / (2 * x)
+    return r.v, r.d
